@@ -10,6 +10,11 @@ arithmetic (weights x2, confidences x16 are integers on the grid):
                           not PERMIT; PERMIT => at least min_voters permit+block votes; PERMIT => the
                           strategy's stated criterion (where one is stated); unanimous supported permit
                           ballot => PERMIT; any block defeats UNANIMOUS
+  share clause            a fractional count threshold (THRESHOLD with a threshold in (0,1), EmergencyQuorum
+                          and its default 0.3) is documented as "a share of the colony, never less than one
+                          permit": PERMIT => permit count >= fraction x colony size and >= 1, in exact
+                          rational arithmetic, for a grid of fractions chosen so that every rounding of
+                          fraction x size (down, to nearest, up) is told apart at some explored size
   edge clauses            over the ballot graph: block->permit, raise one permit voter's weight /
                           confidence one grid step: PERMIT is never lost; adding an abstaining /
                           deferring / failed / crashing voter never creates a PERMIT
@@ -22,6 +27,7 @@ maximum electorate.
 from __future__ import annotations
 
 import collections
+import fractions
 import itertools
 import math
 
@@ -145,6 +151,19 @@ STRAT = {
     "threshold": VotingStrategy.THRESHOLD,
 }
 RATIO_THR = {None: None, 0.25: (1, 4), 0.75: (3, 4), 0.5: (1, 2)}
+# fractional COUNT thresholds ("a share of the colony"): float handed to the library -> the stated rational
+SHARES = {0.25: (1, 4), 0.3: (3, 10), 1 / 3: (1, 3), 0.5: (1, 2), 2 / 3: (2, 3), 0.75: (3, 4)}
+EMERGENCY_DEFAULT = (3, 10)  # EmergencyQuorum(emergency_threshold: float = 0.3)
+
+
+def share_of(cfg):
+    """The stated fractional share (a, b) of a count-threshold configuration, or None."""
+    s, thr, _mv = cfg
+    if s == "emergency":
+        return EMERGENCY_DEFAULT if thr is None else SHARES[thr]
+    if s == "threshold" and isinstance(thr, float):
+        return SHARES[thr]
+    return None
 
 
 def bounds(tier):
@@ -166,13 +185,16 @@ def configs(tier):
         out.append(("threshold", None, mv))
         for k in range(1, nmax + 1):
             out.append(("threshold", k, mv))
+        for f in SHARES:  # fractional count thresholds: a share of the colony
+            out.append(("threshold", f, mv))
     # min_voters=0 ("no minimum"): default thresholds of every strategy + the low fractional bar
     for s in STRAT:
         out.append((s, None, 0))
-    for s in ("majority", "supermajority", "weighted", "confidence", "bayesian"):
+    for s in ("majority", "supermajority", "weighted", "confidence", "bayesian", "threshold"):
         out.append((s, 0.25, 0))
     out.append(("emergency", None, 1))
-    out.append(("emergency", 0.5, 1))
+    for f in SHARES:
+        out.append(("emergency", f, 1))
     return out
 
 
@@ -229,10 +251,14 @@ def reference(cfg, kinds_seq):
         r1, r2 = _gt(pe, pe + be, t), _gt(pc, pc + bc, t)  # weight x confidence | confidence only
         differ = r1 != r2
         crit = r1 or r2
+    elif share_of(cfg) is not None:
+        # "a share of the colony, never less than one permit": p >= (fa/fb) * n exactly, colony = all n voters
+        fa, fb = share_of(cfg)
+        crit = p >= 1 and p * fb >= fa * n
     elif s == "threshold" and thr is not None:
         crit = p >= thr
     else:
-        crit = None  # bayesian, default count threshold, emergency: universal clauses only
+        crit = None  # bayesian, default count threshold: universal clauses only
     may = None if crit is None else (gate and crit)
     if p == 0 or not gate:
         may = False
@@ -246,7 +272,7 @@ def reference(cfg, kinds_seq):
         if s == "bayesian" and thr == 0.75:
             must = False  # a posterior bar above 1/2 may legitimately be missed by a weak unanimous ballot
         if s == "threshold":
-            must = must and (p >= thr if thr is not None else p == n)
+            must = must and (p >= thr if isinstance(thr, int) else p == n)
         if s == "emergency":
             must = must and p == n
     return p, b, a, d, may, must, differ
@@ -288,6 +314,10 @@ def judge(cfg, space, seq, res, exc=None):
         elif may is False:
             if s == "unanimous" and b > 0:
                 v.append(("block-did-not-defeat-unanimous", f"{cfg}: PERMIT with {b} block votes, ballot {names}"))
+            elif share_of(cfg) is not None:
+                fa, fb = share_of(cfg)
+                v.append((f"permit-below-share:{s}", f"{cfg}: PERMIT with {p} permit votes in a colony of {n}: share {p}/{n} is below "
+                          f"the stated share {fa}/{fb} (needs p >= {fa}/{fb} x {n}), ballot {names}"))
             else:
                 v.append((f"permit-without-criterion:{s}", f"{cfg}: PERMIT but permit support does not meet the stated criterion "
                           f"(p={p}, b={b}), ballot {names}"))
@@ -382,6 +412,8 @@ def task_tables(arg):
                         acc.add("obs_criterion_met_but_not_permit")
                     if differ:
                         acc.add("obs_weighting_readings_differ")
+                    if may is False and p >= 1 and p + b >= cfg[2] and share_of(cfg) is not None:
+                        acc.add("share_clause_forbids_permit")
                     if must:
                         acc.add("unanimity_clause_applied")
                 if len(acc.samples) < 2 and n == N and p and b:
@@ -463,10 +495,35 @@ def _check_supermajority_reading(nmax):
                 raise common.HarnessError(f"{p}/{tot} lies in [0.66, 2/3): supermajority reading matters")
 
 
+def _check_share_reading(nmax):
+    # the library receives float(a/b); the clause is asserted for the stated rational a/b.  Both readings of
+    # "p >= share x n" must agree on the explored sizes (otherwise the case would be a boundary to skip), and every
+    # rounding of share x n other than "up" must be told apart from it at some explored size.
+    Fraction = fractions.Fraction
+    for fl, (a, b) in SHARES.items():
+        for n in range(1, nmax + 1):
+            for p in range(n + 1):
+                if (p * b >= a * n) != (Fraction(p) >= Fraction(fl) * n):
+                    raise common.HarnessError(f"share {a}/{b}: p={p}, n={n} is decided differently for the float {fl!r}")
+    sizes = range(1, nmax + 1)
+    up = lambda a, b, n: max(1, -((-a * n) // b))  # noqa: E731
+    others = {
+        "down": lambda a, b, n: max(1, (a * n) // b),
+        "nearest-half-even": lambda a, b, n: max(1, round(Fraction(a * n, b))),
+        "nearest-half-up": lambda a, b, n: max(1, (2 * a * n + b) // (2 * b)),
+    }
+    for mode, fn in others.items():
+        if not any(fn(a, b, n) < up(a, b, n) for (a, b) in SHARES.values() for n in sizes):
+            raise common.HarnessError(f"share grid cannot tell rounding '{mode}' from rounding up for n <= {nmax}")
+    if not any(up(*EMERGENCY_DEFAULT, n) > max(1, round(Fraction(EMERGENCY_DEFAULT[0] * n, EMERGENCY_DEFAULT[1]))) for n in sizes):
+        raise common.HarnessError(f"the emergency default share is never rounded differently for n <= {nmax}")
+
+
 def run(ctx):
     bd = bounds(ctx.tier)
     cfgs = configs(ctx.tier)
     _check_supermajority_reading(bd["nr"])
+    _check_share_reading(bd["nr"])
     tasks = []
     for cfg in cfgs:
         tasks.append((FULL.size(bd["nf"]), ("T", (cfg, "full", bd["nf"], 0))))
@@ -529,7 +586,8 @@ def run(ctx):
         distinct_nontrivial=tot.get("nontrivial", 0),
         rule="every multiset of voter kinds (FULL alphabet: permit|block x weight{0,1/2,1,2} x confidence{0,1/4,5/16,1}, EXECUTE, "
         "abstain, defer, FAILURE, raising, unknown verdict, malformed confidence = 39 kinds for n<=nf; REDUCED 15 kinds for n<=nr) x every "
-        "configuration (7 strategies x default/1/4/3/4 thresholds or counts 1..nr x min_voters 1..3, plus min_voters 0 with default and 1/4 thresholds, EmergencyQuorum default and 0.5), each "
+        "configuration (7 strategies x default/1/4/3/4 thresholds or counts 1..nr or colony shares 1/4, 3/10, 1/3, 1/2, 2/3, 3/4 x min_voters 1..3, plus "
+        "min_voters 0 with default and 1/4 thresholds, EmergencyQuorum default and the same six shares), each "
         "cast through the real run_vote; a state is a distinct (configuration, multiset); non-trivial = at least one permit vote and the "
         "min_voters gate is passed; transitions = edges of the ballot graph checked (block->permit, weight/confidence one grid step up, "
         "add one non-voter); orderings of multisets are re-run for the symmetry validation and counted only as executions",
@@ -541,14 +599,19 @@ def run(ctx):
         order_dependent=od,
         boundary_skipped=0,
         permit_decisions=tot.get("permit_decisions", 0),
+        share_clause_forbids_permit=tot.get("share_clause_forbids_permit", 0),
     )
     ctx.assumptions += [
         "grid values are dyadic, every stated ratio threshold (1/4, 1/2, 3/4) is dyadic and compared exactly in integers; no explored "
         "ratio lies within 1e-9 of a threshold without being equal to it (boundary_skipped=0 by construction, equality is judged as 'not >')",
         "supermajority '>66%' is read as > 0.66; no p/(p+b) with p+b <= nr lies in [0.66, 2/3) (checked at start), so 0.66 / 0.666 / 2/3 agree",
         "WEIGHTED and CONFIDENCE: PERMIT is accepted if either documented weighting reading (weight x confidence | weight only resp. "
-        "confidence only) meets the threshold; BAYESIAN, the default count THRESHOLD and EmergencyQuorum have no stated crisp criterion "
+        "confidence only) meets the threshold; BAYESIAN and the default count THRESHOLD have no stated crisp criterion "
         "and get the universal clauses only; BAYESIAN unanimity is asserted for thresholds <= 1/2",
+        "a count threshold in (0,1) (THRESHOLD with a fraction, EmergencyQuorum incl. its default 0.3) is read as documented in "
+        "_threshold_vote: 'a share of the colony, never less than one permit' -> PERMIT => permits >= share x len(colony) and >= 1, "
+        "colony = all voters incl. abstaining/failed ones; asserted one-directionally (a higher bar is not judged); the stated rational "
+        "and the float handed to the library decide every explored (permits, size) identically (checked at start)",
         "custom fractional thresholds are drawn from (0,1); reliability_score stays 1.0; multiset reduction relies on the symmetry "
         "validation up to the stated sequence bounds",
     ]
